@@ -79,6 +79,17 @@ func (s *swamp) PatchExpired(howMany int32, ops []msgpackpatch.Op, condition *ms
 	// before re-adding, so it is safe to call regardless of whether
 	// SaveFunction's IsExpirationTimeChanged branch already re-added
 	// any of them.
+	// Only records that are still the swamp's record for their key go back into the index. A key that
+	// was deleted (and possibly created again) by another request while it was being patched is
+	// indexed by its own Save; re-inserting the selected, now stale object would replace that entry
+	// and make the index disagree with the record.
+	stillLive := make([]treasure.Treasure, 0, len(selected))
+	for _, t := range selected {
+		if s.beaconKey.Get(t.GetKey()) == t {
+			stillLive = append(stillLive, t)
+		}
+	}
+	selected = stillLive
 	s.expirationTimeBeaconASC.ReindexExpiration(selected)
 	// Re-add to DESC by appending each + re-sort. addToExpirationTimeBeacon
 	// handles both ASC and DESC, but we already did ASC via ReindexExpiration
